@@ -50,6 +50,7 @@ struct Obs {
   int8_t closeSyms;  // closed: number of symbols returned before the closing call
   int16_t closingSym;  // closed: symbol returned by the closing call or -1
   uint8_t closeArbs;
+  uint8_t arbBad;    // a running arbitration ended with error (2) / timeout (5) before any byte that may cause it had been read
   uint16_t syms[MAXSYM];
   uint8_t arbs[MAXARB];
   uint16_t notes[MAXNOTE];
@@ -59,7 +60,7 @@ struct Obs {
   bool sameNotes(const Obs& o) const { return nnotes == o.nnotes && !memcmp(notes, o.notes, nnotes * sizeof(notes[0])); }
   bool same(const Obs& o) const {
     return closed == o.closed && reopens == o.reopens && noProgress == o.noProgress && badResult == o.badResult && closeSyms == o.closeSyms &&
-           closingSym == o.closingSym && closeArbs == o.closeArbs && sameSyms(o) && sameArbs(o) && sameNotes(o);
+           closingSym == o.closingSym && closeArbs == o.closeArbs && arbBad == o.arbBad && sameSyms(o) && sameArbs(o) && sameNotes(o);
   }
 };
 
@@ -163,6 +164,8 @@ struct Cfg {
   bool lastCont = false;     // last recv returned RESULT_CONTINUE
   bool lastZeroTmo = true;   // last call was recv(0) and timed out (or nothing was called yet)
   int lastResult = 0;
+  bool arbRunning = false;   // startArbitration was called and no terminal state has been reported yet
+  env::ReadMonitor mon = {0, 0, 0};  // reference scanner state over the bytes read so far
   Obs obs;
   // label of the partition that produced it (for the replay case)
   uint32_t cuts = 0, gaps = 0;  // bit j: boundary between stream byte j-1 and j is a chunk boundary / with timeout
@@ -185,8 +188,12 @@ inline void activate(Cfg* c) {
   env::g_starved = false;
   g_rec.obs = &c->obs;
   g_rec.closedAt = -1;
+  env::g_mon = c->mon;
 }
-inline void deactivate(Cfg* c) { c->clock = env::g_nowMs; }
+inline void deactivate(Cfg* c) {
+  c->clock = env::g_nowMs;
+  c->mon = env::g_mon;
+}
 
 inline void call(Cfg* c, unsigned tmo) {
   Obs& o = c->obs;
@@ -222,6 +229,13 @@ inline void call(Cfg* c, unsigned tmo) {
   }
   if (st == ebusd::as_won || st == ebusd::as_lost || st == ebusd::as_error || st == ebusd::as_timeout) {
     if (o.narbs >= MAXARB) o.overflow = true; else o.arbs[o.narbs++] = static_cast<uint8_t>(st);
+    // synchronous monitor: only a reset/error/undefined/malformed item that has been READ may cancel a
+    // running arbitration, and a timeout needs at least one SYN symbol read
+    if (c->arbRunning && !o.arbBad) {
+      if (st == ebusd::as_error && !env::g_mon.sawCause) o.arbBad = static_cast<uint8_t>(st);
+      if (st == ebusd::as_timeout && !env::g_mon.sawSyn) o.arbBad = static_cast<uint8_t>(st);
+    }
+    c->arbRunning = false;
   }
   if (r < 0 && r != ebusd::RESULT_ERR_TIMEOUT && !closedThisCall) o.badResult = static_cast<int8_t>(r);
 }
@@ -258,10 +272,15 @@ inline void gap(Cfg* c, int pat) {
   runLoop(c, pat);
 }
 // take everything out of the transport buffer, then let one more timeout pass
+// A recv(0) that returns a timeout is not the end: an item without a symbol (e.g. an undefined command,
+// of which the implementation consumes only the first byte per call) was possibly consumed.  The drain
+// goes on until a call neither returns a symbol nor shortens the transport buffer (harness control only,
+// read through -fno-access-control; stopping too early could only show up as a false "lost" alarm).
 inline void drain(Cfg* c) {
   for (int i = 0; i < STEP_CAP && !stopped(*c); i++) {
+    size_t before = c->impl.t->m_bufLen;
     call(c, 0);
-    if (c->lastResult < 0) break;
+    if (c->lastResult < 0 && c->impl.t->m_bufLen >= before) break;
     if (i == STEP_CAP - 1) c->obs.noProgress = true;
   }
   if (!stopped(*c)) call(c, RECV_TIMEOUT);
@@ -306,6 +325,8 @@ inline Cfg initialCfg(const Mode& m) {
   }
   if (m.arb) c.impl.d->startArbitration(ARB_ADDR);
   deactivate(&c);
+  c.arbRunning = m.arb != 0;
+  c.mon = env::ReadMonitor{0, 0, 0};  // the prelude is not part of the judged stream
   c.obs.clear();
   c.lastCont = false;
   c.lastZeroTmo = true;
@@ -357,9 +378,11 @@ inline void cfgKey(const Cfg& c, KeyBuf* k) {
   implKey(c, k);
   const Obs& o = c.obs;
   uint8_t flags[8] = {o.closed, o.noProgress, static_cast<uint8_t>(o.badResult), static_cast<uint8_t>(o.closeSyms),
-                      static_cast<uint8_t>(o.closingSym & 0xff), static_cast<uint8_t>(o.closingSym >> 8), o.closeArbs,
+                      static_cast<uint8_t>(o.closingSym & 0xff), static_cast<uint8_t>(o.closingSym >> 8),
+                      static_cast<uint8_t>(o.closeArbs | (o.arbBad << 5)),
                       static_cast<uint8_t>((c.lastCont ? 1 : 0) | (c.lastZeroTmo ? 2 : 0) | (o.reopens << 2))};
   k->put(flags, 8);
+  k->put(&c.mon, sizeof(c.mon));
   k->put(&o.nsyms, 1);
   k->put(o.syms, o.nsyms * sizeof(o.syms[0]));
   k->put(&o.narbs, 1);
